@@ -4,7 +4,7 @@ recursive call modelled as a fallible call whose ARGUMENTS are checked (engine: 
 What is decided: which value each traversal step continues with, that it continues at exactly the next query position,
 when a step yields an unresolved entry / nothing / an error, and in which order results are accumulated - for lists of
 <= 2 elements. What is not: the recursion as a whole (each step is checked against an arbitrary result of the next)."""
-import re
+import os, re
 import mirsmt, mirexec
 from mirsmt import Untranslatable, pc_term
 from miragg import calls
@@ -606,6 +606,124 @@ def q_dispatch(a):
            "key, a non-empty map's entries are handed to accumulate_map at the current position with the filter function built from this "
            "filter's clauses and its capture name; an empty map selects nothing")
 
+    # ---- `[ keys <op> .. ]` on a map ------------------------------------------------------------------------------------
+    ident = mirexec.m_identity
+    QRV = enum_variants(a.src, "rules/mod.rs", "QueryResult")
+    saved_enums = a.enums
+    a.enums = dict(a.enums, QueryResult=QRV)
+    ex, h = _directed(a, QP.index("MapKeyFilter"), MAP, unroll=1,
+                      extra_models={"next": mirexec.m_iter_next_built, "cloned": ident, "map": ident, "collect": ident,
+                                    "real_binary_operation": m_result_opq, "resolve_function": m_result_opq, "with_capacity": lambda ex, av: ex.opq(),
+                                    "unwrap": lambda ex, av: (av[0][3].get("Some") if av and av[0][0] == "enum" and av[0][3].get("Some") else ex.opq())})
+    a.enums = saved_enums
+    MVF = struct_fields(a.src, "rules/path_value.rs", "MapValue")
+    mapv = field(ex, payload(ex, h["cur"], "Map"), 1, "MapValue")
+    keys_v, vals_v = field(ex, mapv, MVF.index("keys"), "Vec"), field(ex, mapv, MVF.index("values"), "IndexMap")
+    P = a.P
+    bad, nsel = [], 0
+    for p in ex.paths:
+        r = p.ret
+        if p.outcome != "return" or r is None or r[0] != "enum":
+            continue                                   # `_ => unreachable!()` needs real_binary_operation to return another kind: its own obligation
+        evs = [e for e in p.events if e[0] == "call"]
+        rbo = [e for e in evs if e[1] == "real_binary_operation"]
+        probs = []
+        if len(rbo) > 1:
+            probs.append("keys compared more than once")
+        if rbo:
+            its_src = [ex.iter_src.get(e[3][1]) for e in evs if e[1] == "iter" and e[3][0] == "opaque"]
+            lhs = rbo[0][2][0]
+            if not (lhs[0] == "opaque" and any(same(ex.iter_src.get(lhs[1], None), keys_v) for _ in [0])):
+                probs.append("the left-hand side of the key comparison is not this map's key list")
+            if not same(rbo[0][2][5], ex.arg_env["_4"]):
+                probs.append("the key comparison does not use this resolver")
+        gets = [e for e in evs if e[1] == "get"]
+        for g in gets:
+            if not same(g[2][0], vals_v):
+                probs.append("a selected key is looked up in something other than this map's values")
+        # the right-hand side may itself be a query: evaluated from position 0 against the map (not a continuation)
+        rhs_q = [e for e in evs if e[1] == REC and e[2] and e[2][0] == ("int", "0") and not same(e[2][1], h["query"])]
+        for e in rhs_q:
+            if not (same(e[2][2], h["cur"]) and same(e[2][3], ex.arg_env["_4"])):
+                probs.append("the filter's right-hand query is not evaluated against this map with this resolver")
+        recs = [e for e in evs if e[1] == REC and e not in rhs_q]
+        selected = [e for e in evs if e[1] == "with_capacity"]
+        sel_vec = selected[0][3] if selected else None
+        pushes = [e for e in evs if e[1] == "push" and sel_vec is not None and same(e[2][0], sel_vec)]
+        parts = []
+        # results of the comparison, one by one
+        res_vec = None
+        if rbo and rbo[0][3][0] == "enum":
+            res_vec = rbo[0][3][3]["Ok"]
+        # which outcome of the key comparison selects: (Resolved(key), PASS) only
+        if res_vec is not None:
+            made_here = {str(e[3]) for e in evs if e[1] == "with_capacity"}
+            its = iterations(ex, p, it_filter=lambda ev: ev[2] and ev[2][0][0] == "opaque" and str(ex.iter_src.get(ev[2][0][1], ev[2][0])) not in made_here)
+            bnds = [i for _k, _e, _t, i in its] + [len(p.events)]
+            for n_, (k_, el_, tag_, i0_) in enumerate(its):
+                seg = [e for i, e in enumerate(p.events) if bnds[n_] <= i < bnds[n_ + 1] and e[0] == "call" and e[1] == "push" and sel_vec is not None and same(e[2][0], sel_vec)]
+                if el_ is None or el_[0] != "opaque":
+                    continue
+                st_ = field(ex, el_, 1, "rules::Status")
+                for e in seg:
+                    if e[2][1][0] == "variant" and e[2][1][2] == "Resolved":
+                        parts.append(f"(= {st_[2]} {P})")
+        for e in pushes:
+            nsel += 1
+            v = e[2][1]
+            if v[0] == "variant" and v[2] == "Resolved":
+                ok = any(same(v[3][0], g[3][3].get("Some")) for g in gets if g[3][0] == "enum")
+                if not ok:
+                    probs.append("a value selected is not what this map holds under the matching key")
+            elif not (v[0] == "variant" and v[2] == "UnResolved"):
+                probs.append("something other than a map value / an unresolved entry is selected")
+        for k, e in enumerate(recs):
+            ok, cond = _rec_args_ok(e, h, ex, e[2][2])
+            src_ok = any(pu[2][1][0] == "variant" and pu[2][1][2] == "Resolved" and same(pu[2][1][3][0], e[2][2]) for pu in pushes)
+            parts.append(cond if (ok and src_ok) else "false")
+        exts = [e for e in evs if e[1] == "extend"]
+        if len(exts) > len(recs):
+            probs.append("more result lists appended than continuations made")
+        for k, x in enumerate(exts):
+            if not (k < len(recs) and recs[k][3][0] == "enum" and same(x[2][1], recs[k][3][3]["Ok"])):
+                probs.append("continuation results are not appended in order")
+        anyerr = "(or false " + " ".join(f"(= {e[3][2]} 1)" for e in rbo + recs + [x for x in evs if x[1] in (REC, "resolve_function")] if e[3][0] == "enum") + ")"
+        good = f"(and true {' '.join(parts)} (=> (= {r[2]} 1) {anyerr}))"
+        if probs and os.environ.get("VERIF_DEBUG"):
+            print("keys-filter:", probs[:3])
+        bad.append(f"(and {pc_term(p.pc)} {in_range(ex, h)} (not {'false' if probs else good}))")
+    # the `_ => unreachable!()` after the key comparison: real_binary_operation never answers with another kind of result
+    try:
+        rex = a.exec(r"(?:(?:rules::)?eval::)?real_binary_operation",
+                     {"next": mirexec.m_iter_next, "into_iter": mirexec.m_new_iter, "iter": mirexec.m_new_iter, "clone": ident,
+                      "each_lhs_compare": m_result_opq, "report_at_least_one": m_result_opq, "report_all_values": m_result_opq,
+                      "start_record": mirexec.m_result_unit, "end_record": mirexec.m_result_unit, "not_compare": lambda ex, av: ex.opq(),
+                      "in_cmp": lambda ex, av: ex.opq(), "is_empty": mirexec.m_is_empty, "len": lambda ex, av: ("int", ex.len_of(av[0]))},
+                     unroll=1, max_paths=40000, deepen=False)
+        rbad = []
+        for p in rex.paths:
+            r = p.ret
+            if p.outcome != "return" or r is None or r[0] != "enum":
+                continue
+            okv = r[3].get("Ok")
+            if okv is not None and not (okv[0] == "variant" and okv[2] == "QueryValueResult"):
+                rbad.append(f"(and {pc_term(p.pc)} (= {r[2]} 0))")
+        c_ = a.discharge("query/dispatch/keys-filter/comparison-result-kind", rex, rbad,
+                         "real_binary_operation (the comparison behind a `keys` filter): whenever it returns Ok the result is a per-value result "
+                         "list (QueryValueResult) - also for an empty left or right side - so the `_ => unreachable!()` of the keys-filter arm "
+                         "cannot be entered", witness=False)
+        if c_:
+            c_["replay"] = replay_queries(a)
+            c_["reproduced"] = c_["replay"].get("reproduced", False)
+            a.candidates.append(c_)
+    except Untranslatable as e:
+        a.ob.items.append({"obligation": "query/dispatch/keys-filter/comparison-result-kind", "describe": str(e), "verdicts": {}, "status": "inconclusive", "model": None})
+    finish("keys-filter/map", ex, bad,
+           f"`[ keys <op> v ]` on a map ({nsel} selections over all paths; the outcome list of the key comparison arbitrary, <= 1 entry): the map's own "
+           "key list is compared once, through this resolver; a selected value is what this map holds under the matching key (or an unresolved "
+           "entry passed on); every selected value is continued at the NEXT position of this query, results appended in order; an error only "
+           "from a callee")
+
 
 def q_accumulate_map(a):
     MV = struct_fields(a.src, "rules/path_value.rs", "MapValue")
@@ -749,7 +867,7 @@ def replay_queries(a):
     exe = a.cli()
     if not exe:
         return {"reproduced": False, "note": "native build failed"}
-    data = ('{"L": [ {"x": 1, "y": [1, 2]}, {"x": 2, "y": [3]} ],\n "E": [],\n "M": {"a": {"v": 1}, "b": {"v": 2}},\n "N": [[1, 2], [3]],\n "s": 5}\n')
+    data = ('{"L": [ {"x": 1, "y": [1, 2]}, {"x": 2, "y": [3]} ],\n "E": [],\n "M": {"a": {"v": 1}, "b": {"v": 2}},\n "N": [[1, 2], [3]],\n "s": 5, "EM": {}}\n')
     cases = [("L[*].x >= 1", "PASS"), ("L[*].x == 1", "FAIL"), ("some L[*].x == 2", "PASS"), ("L[0].x == 1", "PASS"), ("L[1].x == 2", "PASS"),
              ("L[-1].x == 2", "PASS") if False else ("L[1].y[0] == 3", "PASS"), ("L[2].x == 1", "FAIL"), ("L[2] !exists", "PASS"),
              ("L[*].y[*] >= 1", "PASS"), ("L[*].y[1] == 2", "FAIL"), ("some L[*].y[1] == 2", "PASS"),
@@ -760,9 +878,14 @@ def replay_queries(a):
              ("N[1][1] !exists", "PASS"), ("s[*] == 5", "PASS"), ("s.x !exists", "PASS"), ("this.s == 5", "PASS"), ("L.*.x >= 1", "PASS"),
              ("M[*].a.v == 1", "PASS"), ("M[*].b.v == 2", "PASS"), ("M[*].a.v == 2", "FAIL"), ("M[*].c !exists", "PASS"), ("some M.*.v == 2", "PASS"),
              ("M.*.v == 2", "FAIL"), ("M.* !empty", "PASS"),
-             ("M.*[ v == 2 ].v == 2", "PASS"), ("M.*[ v == 1 ].v == 2", "FAIL"), ("M.*[ v == 9 ].v == 2", "SKIP"), ("M.*[ v >= 1 ].v >= 1", "PASS"), ("L.0.x == 1", "PASS"), ("L.1.x == 2", "PASS"), ("L.1.x == 1", "FAIL"), ("L.2 !exists", "PASS"), ("N.0.1 == 2", "PASS")]
+             ("M.*[ v == 2 ].v == 2", "PASS"), ("M.*[ v == 1 ].v == 2", "FAIL"), ("M.*[ v == 9 ].v == 2", "SKIP"), ("M.*[ v >= 1 ].v >= 1", "PASS"), ("M[ keys == /^a/ ].v == 1", "PASS"), ("M[ keys == /^b/ ].v == 1", "FAIL"), ("M[ keys == /^z/ ].v exists", "SKIP"),
+             ("EM[ keys == /^a/ ] !empty", "FAIL"), ("EM[ keys == /^a/ ].v == 1", "SKIP"), ("M[ keys in [\"a\"] ].v == 1", "PASS"),
+             ("M[ keys not in [\"a\"] ].v == 2", "PASS"), ("M[ keys == \"b\" ].v == 2", "PASS"),
+             ("L[ this.x == 2 ].y[0] == 3", "PASS"), ("L[ this.x == 9 ].y exists", "SKIP"), ("M[ this.v == 2 ].v == 2", "PASS"),
+             ("L[ this.x >= 1 ].x == 1", "FAIL"), ("L.0.x == 1", "PASS"), ("L.1.x == 2", "PASS"), ("L.1.x == 1", "FAIL"), ("L.2 !exists", "PASS"), ("N.0.1 == 2", "PASS")]
     return a.replay_cases(exe, data, cases)
 
 
 SITES = {"C01": [q_accumulate, q_accumulate_map, q_retrieve_index, q_map_resolved, q_filter_delegate, q_dispatch, q_variable_head, q_unresolved_value],
+         "C08": [q_dispatch],
          "C15": [q_variable_head], "C10": [q_unresolved_value]}
